@@ -6,6 +6,7 @@ package main
 // probe and the locked re-check of Counter / Gauge / Timer / Histogram.
 
 import (
+	"strings"
 	"encoding/json"
 	"fmt"
 	"math"
@@ -371,11 +372,23 @@ func init() {
 			var sp struct {
 				Storm  bool `json:"storm"`
 				Rounds int  `json:"rounds"`
+				San    bool `json:"sanitizer"`
 			}
 			if json.Unmarshal(ctx.Replay, &sp) == nil && sp.Storm {
 				ctx.Case(sp, "", "uncontrolled-first-use-rounds", "")
-				if f := c09Storm(sp.Rounds*4, 8); f != "" {
+				if f := c09Storm(sp.Rounds*4, 8, sp.San); f != "" {
 					ctx.Fail("one_object_per_identity_allocate_once_all_delivered", f, sp, nil)
+				}
+				return
+			}
+			var pa struct {
+				P    bool `json:"first_use_panics_then_more_use"`
+				Kind int  `json:"kind"`
+			}
+			if json.Unmarshal(ctx.Replay, &pa) == nil && pa.P {
+				ctx.Case(pa, "", "first-use-panics-then-more-use", "")
+				if f := c09AfterPanic(pa.Kind); f != "" {
+					ctx.Fail("no_panic_no_deadlock", f, pa, nil)
 				}
 				return
 			}
@@ -483,11 +496,24 @@ func init() {
 		ctx.Res.Schedules = nsched
 		// uncontrolled: goroutines really first-use the same fresh name at once (spin barrier)
 		rounds := ctx.N(300, 6000)
-		if f := c09Storm(rounds, 8); f != "" {
-			ctx.Fail("one_object_per_identity_allocate_once_all_delivered", f, map[string]interface{}{"storm": true, "rounds": rounds}, nil)
+		for _, san := range []bool{false, true} {
+			if f := c09Storm(rounds, 8, san); f != "" {
+				ctx.Fail("one_object_per_identity_allocate_once_all_delivered", f, map[string]interface{}{"storm": true, "rounds": rounds, "sanitizer": san}, nil)
+				break
+			}
+			ctx.Res.Evaluations += rounds
+			ctx.Res.Histogram["uncontrolled-first-use-rounds"] += rounds
 		}
-		ctx.Res.Evaluations += rounds
-		ctx.Res.Histogram["uncontrolled-first-use-rounds"] += rounds
+		// a first use panics inside the library's first-use path (reporter allocation, rejected bucket
+		// type), the caller recovers: the scope stays usable
+		for kind := 0; kind < 5; kind++ {
+			cs := map[string]interface{}{"first_use_panics_then_more_use": true, "kind": kind}
+			ctx.Case(cs, "", "first-use-panics-then-more-use", "")
+			if f := c09AfterPanic(kind); f != "" {
+				ctx.Fail("no_panic_no_deadlock", f, cs, nil)
+				break
+			}
+		}
 		// "... while other goroutines record on already-registered metrics and a report pass runs":
 		// everything recorded through the handles is delivered - counters and histogram buckets by the
 		// streams of C01 (sums), gauges here: an updater against three goroutines running passes; once the
@@ -604,10 +630,21 @@ func c09Self(shards int, cached bool) string {
 // c09Storm: per round G goroutines pass a spin barrier and ask one live scope for the same,
 // never used before, metric; they must all get one object, the cached reporter's Allocate must be
 // called once, and what they record must be delivered.
-func c09Storm(rounds, G int) string {
+func c09Storm(rounds, G int, san bool) string {
 	log := &Log{}
-	root, closer := tally.VerifNewRootScope(tally.ScopeOptions{OmitCardinalityMetrics: true,
-		CachedReporter: &RecCached{L: log, Caps: caps{true, true}}}, 0, 2)
+	opts := tally.ScopeOptions{OmitCardinalityMetrics: true, CachedReporter: &RecCached{L: log, Caps: caps{true, true}}}
+	dirty := ""
+	if san {
+		// a sanitizer and names it has to rewrite: every getter sanitizes the name before it probes
+		opts.SanitizeOptions = &tally.SanitizeOptions{
+			NameCharacters:       tally.ValidCharacters{Ranges: tally.AlphanumericRange, Characters: tally.UnderscoreDashCharacters},
+			KeyCharacters:        tally.ValidCharacters{Ranges: tally.AlphanumericRange, Characters: tally.UnderscoreDashCharacters},
+			ValueCharacters:      tally.ValidCharacters{Ranges: tally.AlphanumericRange, Characters: tally.UnderscoreDashCharacters},
+			ReplacementCharacter: '_',
+		}
+		dirty = " x!"
+	}
+	root, closer := tally.VerifNewRootScope(opts, 0, 2)
 	deadlocked := false
 	defer func() {
 		if !deadlocked {
@@ -618,7 +655,7 @@ func c09Storm(rounds, G int) string {
 	ids := make([]string, G)
 	for r := 0; r < rounds; r++ {
 		kind := r % 4
-		name := fmt.Sprintf("m%d", r)
+		name := fmt.Sprintf("m%d%s", r, dirty)
 		var arrived int32
 		var wg sync.WaitGroup
 		for g := 0; g < G; g++ {
@@ -686,8 +723,15 @@ func c09Storm(rounds, G int) string {
 			del[bucket[e.I[0]]] += e.I[1]
 		}
 	}
+	clean := strings.NewReplacer(" ", "_", "!", "_").Replace(dirty)
+	if n := len(allocs); n != rounds {
+		return fmt.Sprintf("%d first-use rounds on fresh names (%d goroutines each): Allocate was called for %d different names", rounds, G, n)
+	}
 	for r := 0; r < rounds; r++ {
-		name := fmt.Sprintf("storm.m%d", r)
+		name := fmt.Sprintf("storm.m%d%s", r, clean)
+		if san {
+			name = fmt.Sprintf("storm_m%d%s", r, clean) // the separator is sanitized as well
+		}
 		if allocs[name] != 1 {
 			return fmt.Sprintf("Allocate was called %d times for %q (first use by %d goroutines at once)", allocs[name], name, G)
 		}
